@@ -1,14 +1,17 @@
 (* Properties_C17.v -- final statements for property C17 (tunnel domain validation and query
    matching follow label boundaries exactly).  Model: Domain.v (check_topdomain, query_datalen
    of src/common.c); specifications valid_domain_spec / match_spec are in Domain.v, written
-   independently of the algorithms; lemmas in DomainProofs.v.
+   independently of the algorithms; lemmas in DomainProofs.v.  The use of query_datalen's result
+   by the server's dispatcher (Server.tunnel_dns / recv_datagram, modelling tunnel_dns() of
+   src/iodined.c) is covered by the C17_dispatch* / C17_datagram_forward theorems; lemmas and the
+   specification-side definitions in DomainDispatchProofs.v.
 
    Strings are lists of N.  The theorems hold for all such lists; C strings are the lists of
    bytes 1..255 (no NUL), which is the only part of the domain the correspondence check can
    exercise.  The limits 3 / 128 / 63 / 63 / 3 are read from the source on every run
    (DomainProofs.src_consts fails when one of them changes). *)
 From Coq Require Import List NArith Arith Lia.
-From Iodine Require Import Base Domain DomainProofs.
+From Iodine Require Import Base DnsMsg Domain DomainProofs Server DomainDispatchProofs.
 Import ListNotations.
 Local Open Scope N_scope.
 
@@ -86,6 +89,101 @@ Proof.
 Qed.
 Print Assumptions C17_match_iff_without_nodotdot_refuted.
 
+(* --- the use of the result in the server's dispatcher -------------------------------------
+   Server.tunnel_dns models tunnel_dns() of src/iodined.c: domain_len = query_datalen(q.name,
+   topdomain); domain_len >= 0 -> tunnel handling, else forward_query (-b) or nothing.  The
+   specification side (in_domain_handling / out_of_domain_handling / tunnel_rr / no_forward /
+   is_dns_answer) is in DomainDispatchProofs.v, written in the order of the C.  For every
+   external function (login, unz), configuration, session state, time and query. *)
+
+(* the dispatcher is exactly: tunnel handling when query_datalen is Some n (n = 0 included),
+   forward-or-ignore when it is None *)
+Theorem C17_dispatch : forall login unz (c : cfg) (st : sstate) (now rnd : N) (q : hq),
+  tunnel_dns login unz c st now rnd q =
+  match query_datalen (h_name q) (c_topdomain c) with
+  | Some n => in_domain_handling login unz c st now rnd q n
+  | None => out_of_domain_handling c st q
+  end.
+Proof. exact tunnel_dns_dispatch. Qed.
+Print Assumptions C17_dispatch.
+
+(* a query is forwarded exactly when its name is outside the domain and forwarding is configured;
+   what is forwarded is that query *)
+Theorem C17_dispatch_forward_iff : forall login unz (c : cfg) (st : sstate) (now rnd : N) (q q' : hq),
+  In (OForward q') (snd (tunnel_dns login unz c st now rnd q)) <->
+  (query_datalen (h_name q) (c_topdomain c) = None /\ c_bind c = true /\ q' = q).
+Proof. exact tunnel_dns_forward_iff. Qed.
+Print Assumptions C17_dispatch_forward_iff.
+
+(* never both: each query is in exactly one of the two cases.  Inside the domain it gets the tunnel
+   handling and no output is a forwarded query; outside it is forwarded (-b) or ignored, the
+   sessions are unchanged and no output is a DNS answer *)
+Theorem C17_dispatch_exclusive : forall login unz (c : cfg) (st : sstate) (now rnd : N) (q : hq),
+  (exists n, query_datalen (h_name q) (c_topdomain c) = Some n /\
+             tunnel_dns login unz c st now rnd q = in_domain_handling login unz c st now rnd q n /\
+             no_forward (snd (tunnel_dns login unz c st now rnd q))) \/
+  (query_datalen (h_name q) (c_topdomain c) = None /\
+   tunnel_dns login unz c st now rnd q = (st, if c_bind c then [OForward q] else []) /\
+   forall o, In o (snd (tunnel_dns login unz c st now rnd q)) -> ~ is_dns_answer o).
+Proof. exact tunnel_dns_partition. Qed.
+Print Assumptions C17_dispatch_exclusive.
+
+(* the tunnel record types (NULL, PRIVATE, CNAME, A, MX, SRV, TXT) of a name inside the domain go to
+   handle_null_request with the reported data length -- for A unless it is the ns./www. query *)
+Theorem C17_dispatch_tunnel_types : forall login unz (c : cfg) (st : sstate) (now rnd : N) (q : hq) (n : nat),
+  query_datalen (h_name q) (c_topdomain c) = Some n ->
+  tunnel_rr (h_type q) = true -> ns_a_query q n = false -> www_a_query q n = false ->
+  tunnel_dns login unz c st now rnd q = handle_null_request login unz c st now rnd q n.
+Proof. exact tunnel_dns_inside_tunnel_rr. Qed.
+Print Assumptions C17_dispatch_tunnel_types.
+
+(* in particular a name that equals the domain (or whose only extra label is the wildcard's):
+   data length 0 is tunnel traffic like any other *)
+Theorem C17_dispatch_zero_data : forall login unz (c : cfg) (st : sstate) (now rnd : N) (q : hq),
+  query_datalen (h_name q) (c_topdomain c) = Some 0%nat -> tunnel_rr (h_type q) = true ->
+  tunnel_dns login unz c st now rnd q = handle_null_request login unz c st now rnd q 0.
+Proof. exact tunnel_dns_zero_data_tunnel_rr. Qed.
+Print Assumptions C17_dispatch_zero_data.
+
+(* an NS query for a name inside the domain gets the NS auxiliary answer built for the matched
+   part of the name *)
+Theorem C17_dispatch_ns : forall login unz (c : cfg) (st : sstate) (now rnd : N) (q : hq) (n : nat),
+  query_datalen (h_name q) (c_topdomain c) = Some n -> h_type q = T_NS ->
+  tunnel_dns login unz c st now rnd q =
+  (st, aux_out q (dns_encode_ns_response buf64k (to_query q) (skipn n (h_name q)) (answer_ip c q))).
+Proof. exact tunnel_dns_inside_ns. Qed.
+Print Assumptions C17_dispatch_ns.
+
+(* ... and that answer is really sent (n = 0: the NS query for the domain itself; n = 1 would be
+   the name ".domain"; 1000 is any bound below the 64 kB buffer, names have at most 255 bytes) *)
+Theorem C17_dispatch_ns_answered : forall login unz (c : cfg) (st : sstate) (now rnd : N) (q : hq) (n : nat),
+  query_datalen (h_name q) (c_topdomain c) = Some n -> h_type q = T_NS ->
+  n <> 1%nat -> (length (h_name q) <= 1000)%nat ->
+  exists bytes, tunnel_dns login unz c st now rnd q = (st, [OAux (h_from q) bytes]).
+Proof. exact tunnel_dns_ns_answered. Qed.
+Print Assumptions C17_dispatch_ns_answered.
+
+(* any other record type of a name inside the domain is dropped, not forwarded *)
+Theorem C17_dispatch_other_type : forall login unz (c : cfg) (st : sstate) (now rnd : N) (q : hq) (n : nat),
+  query_datalen (h_name q) (c_topdomain c) = Some n ->
+  tunnel_rr (h_type q) = false -> h_type q <> T_NS ->
+  tunnel_dns login unz c st now rnd q = (st, []).
+Proof. exact tunnel_dns_inside_other. Qed.
+Print Assumptions C17_dispatch_other_type.
+
+(* datagram level (raw-mode frames, DNS decoding, then the dispatcher): whatever datagram arrives,
+   a forwarded query is the query decoded from it, its name is outside the domain and forwarding
+   is configured *)
+Theorem C17_datagram_forward : forall login unz (c : cfg) (st : sstate) (now rnd : N) (from : addr)
+    (dest : option (list N)) (packet : list N) (q' : hq),
+  In (OForward q') (snd (recv_datagram login unz c st now rnd from dest packet)) ->
+  query_datalen (h_name q') (c_topdomain c) = None /\ c_bind c = true /\
+  h_from q' = from /\ h_dest q' = dest /\
+  dq_q (dns_decode_query packet (length packet)) =
+    Some {| q_name := h_name q'; q_type := h_type q'; q_id := h_id q' |}.
+Proof. exact recv_datagram_forward. Qed.
+Print Assumptions C17_datagram_forward.
+
 (* --- non-vacuity ----------------------------------------------------------------------- *)
 
 Definition s_test_com : list N := [116; 101; 115; 116; 46; 99; 111; 109].            (* "test.com" *)
@@ -128,4 +226,51 @@ Proof.
   split; [apply (C17_match_iff s_test_com false); vm_compute; reflexivity|].
   split; [apply (C17_no_match s_test_com false); vm_compute; reflexivity|].
   apply (C17_match_iff s_wild_test_com true); vm_compute; reflexivity.
+Qed.
+
+(* the dispatcher on zero-data names: "TEST.com" under the domain "test.com" and "ab.test.com"
+   under "*.test.com" have data length 0; with forwarding configured, an NS query for them is
+   answered (through the theorem and by computation: one auxiliary answer to the sender), a TXT /
+   NULL query goes to the tunnel handler (which sends nothing for an empty request) and neither is
+   forwarded, while "xtest.com" is forwarded *)
+Definition s_TEST_com : list N := [84; 69; 83; 84; 46; 99; 111; 109].               (* "TEST.com" *)
+Definition s_ab_test_com : list N := [97; 98; 46] ++ s_test_com.                     (* "ab.test.com" *)
+Definition ex_cfg (d : list N) : cfg :=
+  {| c_topdomain := d; c_password := []; c_check_ip := true; c_my_ip := 0; c_netmask := 27; c_mtu := 1130;
+     c_ns_ip := None; c_bind := true |}.
+Definition ex_from : addr := {| a_fam := 2; a_ip := [192; 0; 2; 1]; a_port := 4000 |}.
+Definition ex_q (name : list N) (ty : N) : hq :=
+  {| h_name := name; h_type := ty; h_id := 4660; h_from := ex_from; h_id2 := 0; h_from2 := addr0;
+     h_dest := Some [10; 1; 2; 3] |}.
+Definition ex_st : sstate := init_state [1; 2].
+Definition ex_run (d name : list N) (ty : N) : sstate * list out :=
+  tunnel_dns login_stub unz_frame (ex_cfg d) ex_st 1000 7 (ex_q name ty).
+
+Example C17_example_dispatch :
+  query_datalen s_TEST_com s_test_com = Some 0%nat /\
+  query_datalen s_ab_test_com s_wild_test_com = Some 0%nat /\
+  (exists bytes, ex_run s_test_com s_TEST_com T_NS = (ex_st, [OAux ex_from bytes])) /\
+  (exists bytes, ex_run s_wild_test_com s_ab_test_com T_NS = (ex_st, [OAux ex_from bytes])) /\
+  match snd (ex_run s_test_com s_TEST_com T_NS) with
+  | [OAux to bytes] => to = ex_from /\ firstn 2 bytes = [18; 52] /\ nth 2 bytes 0 = 132
+  | _ => False
+  end /\
+  ex_run s_test_com s_TEST_com T_TXT = (ex_st, []) /\
+  ex_run s_wild_test_com s_ab_test_com T_NULL = (ex_st, []) /\
+  ex_run s_test_com s_xtest_com T_NS = (ex_st, [OForward (ex_q s_xtest_com T_NS)]) /\
+  ex_run s_test_com s_xtest_com T_TXT = (ex_st, [OForward (ex_q s_xtest_com T_TXT)]) /\
+  In (OForward (ex_q s_xtest_com T_TXT)) (snd (ex_run s_test_com s_xtest_com T_TXT)) /\
+  ~ In (OForward (ex_q s_TEST_com T_TXT)) (snd (ex_run s_test_com s_TEST_com T_TXT)).
+Proof.
+  split; [vm_compute; reflexivity|]. split; [vm_compute; reflexivity|].
+  split; [apply C17_dispatch_ns_answered with (n := 0%nat);
+          [vm_compute; reflexivity|reflexivity|discriminate|vm_compute; lia]|].
+  split; [apply C17_dispatch_ns_answered with (n := 0%nat);
+          [vm_compute; reflexivity|reflexivity|discriminate|vm_compute; lia]|].
+  split; [vm_compute; repeat split; reflexivity|].
+  split; [vm_compute; reflexivity|]. split; [vm_compute; reflexivity|].
+  split; [vm_compute; reflexivity|]. split; [vm_compute; reflexivity|].
+  split.
+  - apply C17_dispatch_forward_iff. repeat split; vm_compute; reflexivity.
+  - intros H. apply C17_dispatch_forward_iff in H. destruct H as [H _]. vm_compute in H. discriminate.
 Qed.
